@@ -1,25 +1,65 @@
 """reftext.py - reference meaning of a whole text: reflex (bytes -> tokens) + RefParser
 (tokens -> store).  Used by C03, C05, C06, C12, C13, C15."""
-from model import RefParser, new_store, ACCEPT, REJECT, INCOMPLETE, UNSPEC
+from model import RefParser, new_store, Tok, ACCEPT, REJECT, INCOMPLETE, UNSPEC
 import reflex
+
+MAX_INCLUDE_DEPTH = 10
+
+
+class Files:
+    """file model for include(): name -> content for regular files, a set of directories,
+    an optional resolver (C17's refresolve) mapping the written name to the resolved name"""
+
+    def __init__(self, files=None, dirs=(), resolver=None, env=None):
+        self.files = files or {}
+        self.dirs = set(dirs)
+        self.resolver = resolver
+        self.env = env or {}
+
+    def include(self, args, tok):
+        if len(args) != 1:
+            return (REJECT, 'wrong number of arguments to include')
+        if tok.depth >= MAX_INCLUDE_DEPTH:
+            return (REJECT, 'includes nested too deeply')
+        name = args[0]
+        if b'\0' in name:
+            return (UNSPEC, 'NUL in file name')
+        rname = self.resolver(name) if self.resolver else name
+        if rname is None or rname in self.dirs or rname not in self.files:
+            return (REJECT, 'include target missing, unreadable or a directory')
+        lx = reflex.lex(self.files[rname], self.env)
+        toks = lx.toks
+        for t in toks:
+            t.file = rname
+            t.depth = tok.depth + 1
+        if lx.status == 'REJECT':
+            toks = toks + [Tok('X', lx.why.encode('latin-1'), lx.line, lx.line, rname, tok.depth + 1)]
+        elif lx.status == 'UNSPEC':
+            toks = toks + [Tok('U', lx.why.encode('latin-1'), lx.line, lx.line, rname, tok.depth + 1)]
+        return toks
 
 
 class TextResult:
-    __slots__ = ('verdict', 'store', 'lex', 'res', 'why', 'err_line', 'err_lines')
+    __slots__ = ('verdict', 'store', 'lex', 'res', 'why', 'err_line', 'err_lines', 'err_file', 'toks')
 
 
-def meaning(schema, ctxflags, data, env=None, store=None, include=None, cb_fail=0):
+def meaning(schema, ctxflags, data, env=None, store=None, files=None, cb_fail=0):
     """-> TextResult; verdict in ACCEPT / REJECT / UNSPEC (INCOMPLETE is folded into REJECT:
     the text as given is rejected).  err_lines = (lo, hi) range of acceptable lines for the
     diagnostic that accompanies a rejection (None when not determined)."""
     lx = reflex.lex(data, env)
     st = store if store is not None else new_store(schema, ctxflags)
-    p = RefParser(ctxflags, include=include, cb_fail=cb_fail)
+    if files is not None:
+        files.env = env or {}
+    p = RefParser(ctxflags, include=files.include if files is not None else None, cb_fail=cb_fail)
     res = p.parse(st, lx.toks)
+    toks = p.toks     # with included files spliced in
     t = TextResult()
     t.store, t.lex, t.res = st, lx, res
+    t.toks = toks
     t.why = res.why
     t.err_lines = None
+    t.err_file = None
     if lx.status == 'OK':
         if res.verdict == ACCEPT:
             t.verdict = ACCEPT
@@ -29,18 +69,22 @@ def meaning(schema, ctxflags, data, env=None, store=None, include=None, cb_fail=
             t.verdict = REJECT
             if res.verdict == INCOMPLETE:
                 t.err_lines = (lx.line, lx.line)           # premature end: the line the input ends on
-            elif res.at < len(lx.toks):
-                tk = lx.toks[res.at]
+            elif res.at < len(toks):
+                tk = toks[res.at]
+                t.err_file = tk.file
                 t.err_lines = (tk.eline, tk.eline)         # the offending token's last line
                 if res.why in ('duplicate title', 'parse callback failed', 'validation callback failed',
-                               'function callback failed'):
-                    t.err_lines = (lx.toks[max(0, res.at - 3)].line, tk.eline)
+                               'function callback failed', 'wrong number of arguments to include', 'includes nested too deeply',
+                               'include target missing, unreadable or a directory'):
+                    first = toks[res.start] if res.start is not None else tk
+                    t.err_lines = (min(first.line, tk.eline), tk.eline)
     else:
         # the scanner stops in the middle: everything before that point has been parsed
         if res.verdict == REJECT:
             t.verdict = REJECT
-            tk = lx.toks[res.at] if res.at < len(lx.toks) else None
+            tk = toks[res.at] if res.at < len(toks) else None
             if tk is not None:
+                t.err_file = tk.file
                 t.err_lines = (tk.eline, tk.eline)
         elif res.verdict == UNSPEC or lx.status == 'UNSPEC':
             t.verdict = UNSPEC
